@@ -426,6 +426,17 @@ func (w *world) mkFanOut(m *model.Ledger, n int) (model.Txn, bool) {
 	return tx, true
 }
 
+// hasOverflowed: some owned unspent output's accrued hours at the head time exceed 2^64-1.
+func (w *world) hasOverflowed(m *model.Ledger) bool {
+	headTime := m.Head().Head.Time
+	for _, id := range w.ownedUnspents(m) {
+		if _, over, inter := model.AccruedHours(m.Unspent[id], headTime); over && !inter {
+			return true
+		}
+	}
+	return false
+}
+
 // mkOverflowCombo: one owned output whose accrued hours at the head time exceed 2^64-1 and one ordinary owned
 // output, spent together.
 func (w *world) mkOverflowCombo(m *model.Ledger) (model.Txn, bool) {
